@@ -19,7 +19,7 @@ func init() { core.Register(c20{}) }
 func (c20) ID() string    { return "C20" }
 func (c20) Level() string { return "exploration" }
 func (c20) Rule() string {
-	return "cases = generated histories (rotated files, batches, values whose last bytes are zero, tombstones of keys ending in 0x00, adopted merges so that a hint file is in the directory, un-adopted merge directories) under both I/O types (every eighth case with the relative DirPath data, whose text re-occurs in every data-file name) with 1..5 Backup calls interleaved with continued writing (in every third case all backups go into the SAME directory, which then already holds the previous backup, with merges adopted in between so that source files shrink); at each Backup the model is snapshotted; the copy is opened WHILE the source is still open (it must not carry the lock), dumped against the snapshot, written to and restarted (must not affect the source), and closed; the source then continues, deliberately with a value larger than the space left on the active file's last 4 KiB page, a multi-block value, enough data to rotate, and a restart, and is dumped against the model after each. Every case runs in a worker process: the death of the worker (SIGBUS on a truncated mapping) is a violation attributed to the open case. Non-trivial: >=2 backups, >=1 taken with >=3 data files and >=1 after an adopted merge; distinct = hash of (config, op list)"
+	return "cases = generated histories (rotated files, batches, values whose last bytes are zero, tombstones of keys ending in 0x00, adopted merges so that a hint file is in the directory, un-adopted merge directories) under both I/O types (every eighth case with the relative DirPath data, whose text re-occurs in every data-file name) with 1..5 Backup calls interleaved with continued writing (in every third case all backups go into the SAME directory, which then already holds the previous backup, with merges adopted in between so that source files shrink; every sixth case first fills many files with uniformly sized records, backs up between a finished Merge and its adoption and again after the adoption, when rewritten files have replaced originals of the same byte size); at each Backup the model is snapshotted; the copy is opened WHILE the source is still open (it must not carry the lock), dumped against the snapshot, written to and restarted (must not affect the source), and closed; the source then continues, deliberately with a value larger than the space left on the active file's last 4 KiB page, a multi-block value, enough data to rotate, and a restart, and is dumped against the model after each. Every case runs in a worker process: the death of the worker (SIGBUS on a truncated mapping) is a violation attributed to the open case. Non-trivial: >=2 backups, >=1 taken with >=3 data files and >=1 after an adopted merge; distinct = hash of (config, op list)"
 }
 func (c20) Assumptions() []string {
 	return []string{"process death is attributed through the worker journal", "the copy is opened with the source's configuration and with the other I/O type alternately"}
@@ -40,6 +40,10 @@ func (c20) Cases(tier string, seed uint64) []core.Case {
 		cfg.IndexType = core.IndexTypes[i%3]
 		cfg.FileIO = byte((i / 3) % 2)
 		cfg.DataFileSize = []int64{8 << 10, 40 << 10, 64 << 10, 1 << 20}[r.Intn(4)]
+		if i%6 == 5 {
+			cfg.DataFileSize = 8 << 10
+			cfg.FileIO = byte((i / 6) % 2) // both back-ends (the mapped one touches every file at Open)
+		}
 		out = append(out, core.Case{Index: i, ID: fmt.Sprintf("c20-%05d", i), Seed: r.U64(), Data: seqCase{Cfg: cfg, NOps: r.Range(30, 150), NKeys: r.Range(3, 9)}})
 	}
 	return out
@@ -50,6 +54,11 @@ func (c20) Run(c core.Case, w *core.Worker) core.Result {
 	res := core.Result{}
 	root := w.Dir("root")
 	dir := filepath.Join(root, "db")
+	if c.Index%8 == 3 {
+		root = w.Dir(core.HostileName(c.Index / 8))
+		dir = filepath.Join(root, core.HostileName(c.Index/8+3))
+		res.Add("cases_with_metacharacters_in_the_path", 1)
+	}
 	if c.Index%8 == 7 {
 		// a relative data directory whose name re-occurs inside the data-file names ("data")
 		if old, err := os.Getwd(); err == nil && os.MkdirAll(root, 0755) == nil && os.Chdir(root) == nil {
@@ -206,6 +215,33 @@ func (c20) Run(c core.Case, w *core.Worker) core.Result {
 		}
 	}
 	nbk := 0
+	if c.Index%6 == 5 && sc.Cfg.DataFileSize == 8<<10 {
+		// uniformly sized records filling many files, every key written twice; a finished but
+		// not yet adopted Merge; Backup; the restart that adopts (rewritten files replace
+		// originals of the SAME byte size, by rename, keeping their older mtime); Backup into
+		// the same directory again
+		for round := 0; round < 2 && !s.Dead; round++ {
+			for i := 0; i < 300 && !s.Dead; i++ {
+				s.Exec(core.Op{Kind: "put", Key: []byte(fmt.Sprintf("u%04d", i)), VLen: 100, VSeed: r.U64() | 1})
+			}
+		}
+		if !s.Dead {
+			s.Exec(core.Op{Kind: "merge"})
+		}
+		if !s.Dead {
+			nbk++
+			doBackup(nbk)
+		}
+		if !s.Dead {
+			s.Exec(core.Op{Kind: "restart"})
+			adopted = true
+		}
+		if !s.Dead {
+			nbk++
+			doBackup(nbk)
+			res.Add("backups_around_the_adoption_of_equal_sized_files", 1)
+		}
+	}
 	for i := 0; i < sc.NOps && !s.Dead; i++ {
 		if backupAt[i] {
 			nbk++
